@@ -370,7 +370,11 @@ def lazy_constant(model: Model, func: str, name: str) -> Optional[str]:
     fn = fi.node
     if not any(isinstance(n, ast.Global) and name in n.names for n in ast.walk(fn)):
         return None
-    params = {a.arg for a in fn.args.args + fn.args.kwonlyargs if a.arg not in ("self", "cls")}
+    params = {a.arg for a in fn.args.args + fn.args.kwonlyargs}
+    if params or fn.args.vararg or fn.args.kwarg:
+        # data dependence alone would miss `if f(point) < best: nearest = origin` (the choice depends on the argument): only a
+        # function without parameters is certain to build the same value whenever it runs
+        return None
     assigns = [n for n in ast.walk(fn) if isinstance(n, ast.Assign) and any(isinstance(t, ast.Name) and t.id == name for t in n.targets)]
     if not assigns or any(isinstance(n, ast.AugAssign) and isinstance(n.target, ast.Name) and n.target.id == name for n in ast.walk(fn)):
         return None
@@ -708,7 +712,16 @@ def generic_setter(model: Model, func: str, key_vars: Set[str], extra: Set[str])
     if fi is None:
         return False
     params = {a.arg for a in fi.node.args.args + fi.node.args.kwonlyargs if a.arg not in ("self", "cls")}
-    return bool(extra) and extra <= params and bool(key_vars) and key_vars <= params
+    if not (bool(extra) and extra <= params and bool(key_vars) and key_vars <= params):
+        return False
+    # ... and the function does not compute the value: what it stores under the key is a parameter as it came in
+    for n in ast.walk(fi.node):
+        if isinstance(n, ast.Assign) and any(isinstance(t, ast.Subscript) for t in n.targets) and isinstance(n.value, ast.Name) and n.value.id in extra:
+            return True
+        if isinstance(n, ast.Call) and isinstance(n.func, ast.Attribute) and n.func.attr == "setdefault" and len(n.args) == 2 \
+                and isinstance(n.args[1], ast.Name) and n.args[1].id in extra:
+            return True
+    return False
 
 
 def stale_slot_read(model: Model, func: str, obj_name: str) -> Optional[str]:
